@@ -331,18 +331,29 @@ structure Cfg where
     a webhook definition; `unset` = the attribute is not written (hand-written ca.json) -/
 inductive CertT where
   | all | x509 | ssh | unset
+  /-- any other spelling (`"x509"`, `"Ssh"`, …) -/
+  | unknown
   deriving DecidableEq, Repr
 
-/-- `WebhookController.isCertTypeOK`: is this webhook consulted for this kind of certificate? -/
+/-- `WebhookController.isCertTypeOK`: is this webhook consulted for this kind of certificate?
+    (string comparison with `ALL`, the empty string and the controller's type name) -/
 def certTypeOK (ctl wh : CertT) : Bool :=
   if ctl = .all then true
   else if wh = .all ∨ wh = .unset then true
   else ctl = wh
 
+/-- `provisionerWebhookToLinkedca` then `webhookToCertificates` (migration into the admin
+    database on the first `enableAdmin` start, and every later load): the certificate type goes
+    through `Webhook_CertType_value[…]`, where a name that is not in the map reads as 0 = `ALL`. -/
+def viaAdminDB : CertT → CertT
+  | .unset | .unknown => .all
+  | t => t
+
 /-- the webhooks of the provisioner that are consulted for a request of type `ctl` when all of
-    them are written with `certType = wh` -/
-def Cfg.consulted (c : Cfg) (ctl wh : CertT) : Cfg :=
-  if certTypeOK ctl wh then c else { c with e := 0, a := 0 }
+    them are written with `certType = wh`, directly from ca.json or after the round trip through
+    the admin database -/
+def Cfg.consulted (c : Cfg) (ctl wh : CertT) (admin : Bool := false) : Cfg :=
+  if certTypeOK ctl (if admin then viaAdminDB wh else wh) then c else { c with e := 0, a := 0 }
 
 /-- `authorizeToken`: the token is recorded (`UseToken`) … -/
 def authorizeTokenSteps : List Kind := [.useToken]
@@ -541,6 +552,35 @@ def storerOrder : List (String × List String) :=
    ("revoke", ["a.adminDB", "a.db"]), ("revokeSSH", ["a.adminDB", "a.db"]),
    ("IsRevoked", ["a.adminDB", "a.db"]), ("authorizeSSHCertificate", ["a.adminDB", "a.db"])]
 def adminStoreMethods : List String := []
+
+/-- For every provisioner type: the certificate type of the webhook controller its
+    `AuthorizeSign` / `AuthorizeSSHSign` hands to the signing code (`-` = none).  `base` refuses
+    every request, `noop` and `MockProvisioner` are not configurable provisioners. -/
+def hookControllers : List (String × String × String) :=
+  [("ACME", "AuthorizeSign", "X509"),
+   ("AWS", "AuthorizeSSHSign", "SSH"), ("AWS", "AuthorizeSign", "X509"),
+   ("Azure", "AuthorizeSSHSign", "SSH"), ("Azure", "AuthorizeSign", "X509"),
+   ("GCP", "AuthorizeSSHSign", "SSH"), ("GCP", "AuthorizeSign", "X509"),
+   ("JWK", "AuthorizeSSHSign", "SSH"), ("JWK", "AuthorizeSign", "X509"),
+   ("K8sSA", "AuthorizeSSHSign", "SSH"), ("K8sSA", "AuthorizeSign", "X509"),
+   ("MockProvisioner", "AuthorizeSSHSign", "-"), ("MockProvisioner", "AuthorizeSign", "-"),
+   ("Nebula", "AuthorizeSSHSign", "SSH"), ("Nebula", "AuthorizeSign", "X509"),
+   ("OIDC", "AuthorizeSSHSign", "SSH"), ("OIDC", "AuthorizeSign", "X509"),
+   ("SCEP", "AuthorizeSign", "X509"),
+   ("X5C", "AuthorizeSSHSign", "SSH"), ("X5C", "AuthorizeSign", "X509"),
+   ("base", "AuthorizeSSHSign", "-"), ("base", "AuthorizeSign", "-"),
+   ("noop", "AuthorizeSSHSign", "-"), ("noop", "AuthorizeSign", "-")]
+def nonIssuingTypes : List String := ["base", "noop", "MockProvisioner"]
+
+/-- POST routes of `api.Route` (mounted under `/1.0` and at the root): path, handler, and the
+    operations that model the handler (`none` = the handler issues and revokes nothing) -/
+def routeTable : List (String × String × List Op) :=
+  [("/re-sign", "Renew", [.renew]), ("/rekey", "Rekey", [.rekey]), ("/renew", "Renew", [.renew]),
+   ("/revoke", "Revoke", [.revoke, .revokeMTLS]), ("/sign-ssh", "SSHSign", [.sshSign, .sshSignFull]),
+   ("/sign", "Sign", [.sign]), ("/ssh/bastion", "SSHBastion", []), ("/ssh/check-host", "SSHCheckHost", []),
+   ("/ssh/config/{type}", "SSHConfig", []), ("/ssh/config", "SSHConfig", []),
+   ("/ssh/rekey", "SSHRekey", [.sshRekey]), ("/ssh/renew", "SSHRenew", [.sshRenew]),
+   ("/ssh/revoke", "SSHRevoke", [.sshRevoke]), ("/ssh/sign", "SSHSign", [.sshSign, .sshSignFull])]
 
 /-- SCEP message types for which `PKIOperation` validates the challenge, and those
     `DecryptPKIEnvelope` treats as carrying a certificate request -/
